@@ -1,6 +1,7 @@
 package main
 
 import (
+	"sync"
 	"crypto/sha256"
 	"encoding/json"
 	"flag"
@@ -130,33 +131,63 @@ func pkgDirOf(pkg string) string {
 }
 
 // nativeReplay runs the vector against the natively compiled code.
-// simReplay: a C17 counterexample says "the application never re-initialises the library after
-// a block". It is replayed against the real program: the simulation is built from repoDir and
-// run with 4 validators for 13 s (block interval 5 s); the violation reproduces iff no node
-// accepts a block above height 1.
+// simReplay: a C17 counterexample says that the application's event loop leaves the library
+// without what its contract needs (no Reset after a block, waiting on a stale timer channel).
+// It is replayed against the real program: the simulation is built from repoDir and run for
+// 13 s (block interval 5 s) in three configurations (4 validators; a single validator; 4
+// validators, a watcher and a blocked validator); the violation reproduces iff some node of
+// some configuration does not get beyond height 1. The runs are sequential (the program binds
+// a fixed debug port) and done once per check run.
 func simReplay(v string) (*replayOutcome, error) {
-	cmd := exec.Command("go", "run", "./internal/simulation", "-count", "4", "-watchers", "0", "-duration", "13s")
-	cmd.Dir = repoDir
-	out, _ := cmd.CombinedOutput()
-	re := regexp.MustCompile(`received block\s*\{[^}]*"height": (\d+)`)
-	maxH, n := 0, 0
-	for _, m := range re.FindAllStringSubmatch(string(out), -1) {
-		h, _ := strconv.Atoi(m[1])
-		n++
-		if h > maxH {
-			maxH = h
+	simReplayOnce.Do(func() {
+		var notes []string
+		stalled := false
+		for _, cfg := range [][]string{{"-count", "4", "-watchers", "0"}, {"-count", "1", "-watchers", "0"}, {"-count", "4", "-watchers", "1", "-blocked", "2"}} {
+			args := append([]string{"run", "./internal/simulation"}, cfg...)
+			args = append(args, "-duration", "13s")
+			cmd := exec.Command("go", args...)
+			cmd.Dir = repoDir
+			out, _ := cmd.CombinedOutput()
+			re := regexp.MustCompile(`received block\s*\{"id": (\d+), "height": (\d+)`)
+			maxH := map[string]int{}
+			for _, m := range re.FindAllStringSubmatch(string(out), -1) {
+				h, _ := strconv.Atoi(m[2])
+				if h > maxH[m[1]] {
+					maxH[m[1]] = h
+				}
+			}
+			if len(maxH) == 0 {
+				simReplayErr = fmt.Errorf("the simulation (%v) did not accept any block in 13 s:\n%s", cfg, tail(string(out), 10))
+				return
+			}
+			low := 1 << 30
+			for _, h := range maxH {
+				if h < low {
+					low = h
+				}
+			}
+			notes = append(notes, fmt.Sprintf("real simulation %v: %d nodes, lowest height reached %d", cfg, len(maxH), low))
+			if low < 2 {
+				stalled = true
+			}
 		}
+		simReplayRes = &replayOutcome{Covers: notes}
+		if stalled {
+			// some node stopped extending its chain after the first block
+			simReplayRes.Failed = []string{"C17.reinitialised", "C17.timerchannel", "C17.height", "C17.ledger"}
+		}
+	})
+	if simReplayErr != nil {
+		return &replayOutcome{}, simReplayErr
 	}
-	ro := &replayOutcome{raw: string(out)}
-	if n == 0 {
-		return ro, fmt.Errorf("the simulation did not accept any block in 13 s:\n%s", tail(string(out), 10))
-	}
-	if maxH <= 1 {
-		ro.Failed = []string{"C17.reinitialised"}
-	}
-	ro.Covers = []string{fmt.Sprintf("real simulation run: %d blocks accepted, highest height %d", n, maxH)}
-	return ro, nil
+	return simReplayRes, nil
 }
+
+var (
+	simReplayOnce sync.Once
+	simReplayRes  *replayOutcome
+	simReplayErr  error
+)
 
 func nativeReplay(vecPath, pkg string) (*replayOutcome, error) {
 	if strings.HasSuffix(pkg, "internal/simulation") {
